@@ -240,9 +240,11 @@ def readChainF (b fat : Bytes) : Nat → Nat → List Nat → Bytes → Outcome 
 
 def readChain (b fat : Bytes) (g : Nat) : Outcome (Bytes × List Nat × Nat) := readChainF b fat 69 g [] []
 
-/-- `calculate_file_length` given the (validated) chain: Python integers may go negative here -/
+/-- `calculate_file_length` given the (validated) chain; a last-granule marker that says "no sector in use" adds nothing
+(fix: the expression used to go negative there) -/
 def fileLength (chainLen : Nat) (lastEntry : Nat) (lastBytes : Nat) : Int :=
-  ((chainLen - 1) * G : Nat) + (((lastEntry % 32 : Nat) : Int) - 1) * Gen.bytesPerSector + lastBytes
+  ((chainLen - 1) * G : Nat) +
+    (if lastEntry % 32 = 0 then (0 : Int) else (((lastEntry % 32 : Nat) : Int) - 1) * Gen.bytesPerSector + lastBytes)
 
 /-- Python `stream[a : a + n]` for `a ≥ 0` and an `n` that may be negative -/
 def pySlice (s : Bytes) (a : Nat) (n : Int) : Bytes :=
